@@ -273,8 +273,10 @@ def merge(total, part):
     total["nontrivial"].update(part.get("nontrivial", []))
     for s in part.get("samples", []):
         total["samples"].append(tuple(s))
-    if part.get("exhaustive"):
-        total["exhaustive_parts"].append(part["exhaustive"])
+    ex = part.get("exhaustive")
+    if ex:
+        cur = total["exhaustive_parts"].setdefault(ex["part"], {"cases": 0, "what": ex.get("what", "")})
+        cur["cases"] += ex.get("cases", 0)
 
 
 def replay_one(mod, spec, supp):
@@ -317,7 +319,7 @@ def main(argv=None):
             return 0
 
         total = {"evaluations": 0, "extra_evals": 0, "truncated": False, "skipped": {}, "labels": {},
-                 "known_hits": {}, "nontrivial": set(), "samples": [], "exhaustive_parts": []}
+                 "known_hits": {}, "nontrivial": set(), "samples": [], "exhaustive_parts": {}}
         violations = []   # (spec, problem-json, source)
         harness = []
 
@@ -439,7 +441,10 @@ def main(argv=None):
         if not total["truncated"]:
             for label, frac in getattr(mod, "FLOORS", {}).items():
                 have = total["labels"].get(label, 0)
-                need = frac * total["evaluations"] if frac < 1 else frac
+                if isinstance(frac, (tuple, list)):      # (fraction, label of the class it is a fraction of)
+                    need = frac[0] * total["labels"].get(frac[1], 0)
+                else:
+                    need = frac * total["evaluations"] if frac < 1 else frac
                 if have < need:
                     sys.stderr.write(f"HARNESS ERROR generator degenerate: class {label} seen {have} < {need:.0f}\n")
                     return 2
